@@ -314,9 +314,49 @@ def run(s):
     s.oblige("C16.read_config.dispatch", lambda: read_config_dispatch(cfg), ["config.read_config"], kind="finite")
     # ---------------- 9. validation: enumeration generated from the schema [F over the schema's fields]
     s.oblige("C16.validate_config.schema_perturbations", lambda: validation(s), ["validate.validate_config", "config.schema.json"], kind="finite")
+    # ---------------- 9b. the PACKAGED defaults and schema are used wherever the process is started: a working directory that holds files named like them changes nothing
+    s.oblige("C16.packaged_files_not_shadowed_by_working_directory", lambda: not_shadowed(cfg), ["config.apply_default_config", "validate.validate_config", "cij.data.get_data_fname"], kind="finite")
     # ---------------- 10. YAML == JSON loading [bounded]
     yaml_json_bounded(s, cfg)
     s.min_obligations = 16
+
+
+def not_shadowed(cfg):
+    import yaml, jsonschema, tempfile, shutil
+    from cij.io.config.validate import validate_config
+    with open(os.path.join(core.REPO, "cij/data/default/settings.yaml")) as fp:
+        packaged = yaml.safe_load(fp)
+    user = {"qha": {"input": "input01"}, "elast": {"input": "input02"}}
+    cwd = os.getcwd()
+    tmp = tempfile.mkdtemp(prefix="c16w_")
+    try:
+        # decoys under every relative name the package's data lookup uses, directly and inside a directory called `cij/data`
+        for base in ("", "cij/data", "data"):
+            for rel, text in (("default/settings.yaml", "qha:\n  settings:\n    NT: 3\nelast:\n  settings: {}\n"), ("schema/config.schema.json", "{}"),
+                              ("default/settings.yml", "{}"), ("settings.yaml", "{}"), ("config.schema.json", "{}")):
+                d = os.path.join(tmp, base, os.path.dirname(rel))
+                os.makedirs(d, exist_ok=True)
+                with open(os.path.join(tmp, base, rel), "w") as fp:
+                    fp.write(text)
+        os.chdir(tmp)
+        eff = cfg.apply_default_config(copy.deepcopy(user))
+        want = py_merge(user, packaged)
+        if not typed_eq_deep(eff, want):
+            return core.refuted("finite", "started from a directory that holds a file default/settings.yaml, the effective configuration takes its unspecified leaves from THAT file "
+                                          "(NT = %r, packaged %r)" % (eff.get("qha", {}).get("settings", {}).get("NT"), packaged["qha"]["settings"].get("NT")),
+                                witness_id="shadow:defaults", replay={"reproduced": True, "working_directory_holds": "default/settings.yaml, schema/config.schema.json"})
+        bad = copy.deepcopy(packaged)
+        del bad["elast"]
+        try:
+            validate_config(bad)
+            return core.refuted("finite", "started from a directory that holds schema/config.schema.json, a configuration without the elast section validates (the packaged schema is not the one used)",
+                                witness_id="shadow:schema", replay={"reproduced": True})
+        except jsonschema.exceptions.ValidationError:
+            pass
+    finally:
+        os.chdir(cwd)
+        shutil.rmtree(tmp, ignore_errors=True)
+    return core.proved("finite", "with decoy files under the working directory the effective configuration is user-over-PACKAGED-defaults and the packaged schema still rejects a missing section")
 
 
 def apply_default_callsite(cfg):
@@ -485,7 +525,7 @@ def validation(s):
         if accepts(doc):
             return core.refuted("finite", "configuration without the %s section is accepted" % sec, witness_id="missing:" + sec, replay={"reproduced": True})
     # values of every OTHER JSON type (JSON Schema: a boolean is not a number, 1 is not a boolean, null is nothing but null)
-    wrong_type = {"string": [5, True, None, ["x"]], "integer": ["x", True, False, None, [1]], "number": ["x", True, False, None, [1.0]],
+    wrong_type = {"string": [5, True, None, ["x"]], "integer": ["x", "3", "1e1", True, False, None, [1]], "number": ["x", "1e-8", "0.1", "1", ".5", True, False, None, [1.0]],
                   "boolean": ["x", 1, 0, None], "object": [5, "x", [], True], "array": [5, "x", {}, True]}
     fields = 0
     for path, sub in walk_schema(schema, schema):
@@ -493,7 +533,22 @@ def validation(s):
             continue
         fields += 1
         t = sub.get("type")
-        if t in wrong_type:
+        # the documented type of a setting that the packaged defaults spell out is the type of its default VALUE (an oracle independent of the schema text: a schema
+        # that widens a numeric setting to "number or numeric-looking string" does not change what the code downstream can use)
+        node = default
+        for k_ in path:
+            node = node.get(k_) if isinstance(node, dict) else None
+            if node is None:
+                break
+        oracle = {bool: "boolean", int: "integer", float: "number", str: "string", dict: "object", list: "array"}.get(type(node)) if node is not None else None
+        if oracle == "integer" and t == "number":
+            oracle = "number"          # a whole-number default of a real-valued setting
+        if isinstance(t, list) or (oracle is not None and t is not None and oracle != t and not (oracle == "integer" and t == "number")):
+            if oracle is None:
+                return core.unknown("finite", "field %s has the composite type %r and no packaged default to take its documented type from" % ("/".join(path), t))
+            if oracle in wrong_type and (isinstance(t, list) or oracle != t):
+                t = oracle
+        if isinstance(t, str) and t in wrong_type:
             for wrong in wrong_type[t]:
                 doc = copy.deepcopy(default)
                 set_path(doc, path, wrong)
